@@ -477,6 +477,25 @@ def _sort(a, axis=-1, kind=None, order=None):
     return sarr(v)
 
 
+@implements(np.count_nonzero)
+def _count_nonzero(a, axis=None, **kw):
+    """the number of true / non-zero elements as ONE symbolic integer-valued term (no fork per element)"""
+    if axis is not None or kw:
+        raise Unsupported("np.count_nonzero with axis / keepdims on symbolic arrays")
+    aa = np.asarray(_strip(a), dtype=object)
+    terms, conc = [], 0
+    for x in aa.flat:
+        if isinstance(x, SB):
+            terms.append(z3.If(x.z, z3.RealVal(1), z3.RealVal(0)))
+        elif isinstance(x, SR):
+            terms.append(z3.If(x.z != 0, z3.RealVal(1), z3.RealVal(0)))
+        else:
+            conc += 1 if x else 0
+    if not terms:
+        return conc
+    return SR(z3.Sum(terms) + conc)
+
+
 @implements(np.sum)
 def _sum(a, axis=None, **kw):
     a = np.asarray(_strip(a), dtype=object)
